@@ -53,8 +53,10 @@ class P(Prop):
     MODULE = "C11"
     THEOREMS = (["C11_%s%d%s" % (t, k, w) for t, ks in (("P", range(8)), ("L", range(9))) for k in ks
                  for w in ("_S1", "_S2", "_S3", "", "_first", "_indefinite")] + ["C11_indefinite_empty"] +
-                ["C11_P%d_knot_float" % k for k in range(8)] + ["C11_knot_float_hypotheses_hold"])
-    PINNED_EXTRA = ["C11F.v"]
+                ["C11_P%d_knot_float" % k for k in range(8)] + ["C11_knot_float_hypotheses_hold"] +
+                ["C11_L%d_knot_float" % k for k in range(9) if k != 4] + ["C11_L4_knot_float_series", "C11_L4_knot_float_closed",
+                                                                            "C11_log_knot_float_hypotheses_hold", "C11_L4_hypotheses_hold"])
+    PINNED_EXTRA = ["C11F.v", "C11L.v"]
     KERNELS = (["Segment<%s>::integral" % t for t in INTEGRABLE] + ["Segment<%s>::indefinite" % t for t in INTEGRABLE] +
                ["Segment<%s>::evaluate" % int_type(t) for t in INTEGRABLE])
     RULE = ("Piecewise::integral / indefinite and both segment-integration iterators on 1..10 pieces over Poly0..7 and "
@@ -131,9 +133,35 @@ class P(Prop):
     def hyp_term(self, case, h):
         # hypotheses of C11_PK_knot_float on the first piece and the given knot
         ty = case["ty"]
-        if case["op"] != "pw_integral_all" or not ty.startswith("Poly") or not case["segs"]:
+        if case["op"] != "pw_integral_all" or not case["segs"]:
             return None
-        return "hyp_safe [e_segknot%d] %s" % (int(ty[4:]), C.zlist(list(case["segs"][0]) + list(case["knot"])))
+        if ty.startswith("Poly"):
+            return "hyp_safe [e_segknot%d] %s" % (int(ty[4:]), C.zlist(list(case["segs"][0]) + list(case["knot"])))
+        # log pieces (C11_LK_knot_float): the same with the logarithm of knot.x the platform returned in this run
+        k = int(ty[8])
+        lt = dict((a, b) for a, b in h.get("ln", []))
+        lb = lt.get(case["knot"][0])
+        if lb is None:
+            return None
+        args = list(case["segs"][0]) + list(case["knot"])
+        if k != 4:
+            return "hyp_safe [e_lsegknot%dx] %s" % (k, C.zlist(args + [lb]))
+        xh = lb ^ C.SIGN
+        x = C.fl(xh)
+        if x != x:
+            return None
+        if -1.71 < x < 1.72:
+            return "hyp_safe [e_l4knot_series] %s" % C.zlist(args + [xh])
+        if x == 0 or abs(x) == float("inf"):
+            return None
+        rh = 1.0 / x
+        if rh == 0:
+            return None
+        et = dict((a, b) for a, b in h.get("exp", []))
+        eb = et.get(C.bits(1.0 / rh))
+        if eb is None:
+            return None
+        return "hyp_safe [e_l4knot_closed] %s" % C.zlist(args + [xh, C.bits(rh), eb])
 
     def coq_term(self, case, h):
         ty = case["ty"]
